@@ -32,6 +32,7 @@ import (
 	"os"
 	"sort"
 	"strings"
+	"time"
 
 	"github.com/bufbuild/buf/private/bufpkg/bufanalysis"
 	"github.com/bufbuild/buf/private/bufpkg/bufimage"
@@ -45,6 +46,7 @@ import (
 )
 
 var ctx = context.Background()
+var unusedDepWitnesses int
 var logger = slog.New(slog.NewTextHandler(io.Discard, nil))
 
 func must[T any](v T, err error) T {
@@ -68,10 +70,38 @@ func main() {
 		replay(run, run.Args[1:])
 		return
 	}
-	partA1(run, r.Fork(1))
-	partA2(run, r.Fork(2))
-	partC(run, r.Fork(3))
+	// C11_PARTS=a1,a2,c,l,b,b2,b3,b4 restricts a run to some parts (replay / development); the
+	// generators fork per part, so a part produces the same cases alone as in a full run.
+	timed("A1", on("a1"), func() { partA1(run, r.Fork(1)) })
+	timed("A2", on("a2"), func() { partA2(run, r.Fork(2)) })
+	timed("C", on("c"), func() { partC(run, r.Fork(3)) })
+	timed("L", on("l"), func() { partL(run, r.Fork(5)) })
 	partB(run, r.Fork(4))
+}
+
+// timed runs one part; C11_TIMING=1 prints the wall time of every part on stderr.
+func timed(name string, enabled bool, f func()) {
+	if !enabled {
+		return
+	}
+	t0 := time.Now()
+	f()
+	if os.Getenv("C11_TIMING") != "" {
+		fmt.Fprintf(os.Stderr, "part %s: %.1fs\n", name, time.Since(t0).Seconds())
+	}
+}
+
+func on(part string) bool {
+	v := os.Getenv("C11_PARTS")
+	if v == "" {
+		return true
+	}
+	for _, p := range strings.Split(v, ",") {
+		if p == part {
+			return true
+		}
+	}
+	return false
 }
 
 func replayCmd(run *hx.Run, line string) string {
@@ -787,7 +817,12 @@ func runTgt(run *hx.Run, ws workspace, paths, excl []string, line string) (out s
 		what := fmt.Sprintf("%s: filtering the image keeps unused_dependency %v, building the targeted sources gives %v", f.Path(), f.UnusedDependencyIndexes(), g.UnusedDependencyIndexes())
 		if f.IsImport() && g.IsImport() {
 			run.Count("A2:import-unused-dependency-differs")
-			fail("C11-path-build-import-unused-dependency-differs", what)
+			// a recorded finding with hundreds of witnesses in the thorough tier: hx keeps the first
+			// 200 failures of a run, so all but the first witnesses are only counted - otherwise
+			// this class alone would push every later failure (Parts B..B4) out of oracle.json
+			if unusedDepWitnesses++; unusedDepWitnesses <= 20 {
+				fail("C11-path-build-import-unused-dependency-differs", what)
+			}
 		} else {
 			fail("C11-path-image-vs-source-unused-dependency", what)
 		}
